@@ -129,6 +129,50 @@ def fill_scenarios(rng, quick):
     return execs
 
 
+def inplace_blt_scenarios(rng, quick):
+    """pixman_blt within one buffer (Composite!BltInPlace): flipping a frame about a line (negated stride, same origin),
+       spreading / packing its lines (different strides, same origin), scrolling to a disjoint place (same strides).
+       The caller's precondition - a source row is the very destination row or touches none - is established here
+       and asserted before a call is emitted."""
+    execs = []
+    k = 0
+    for bpp in (32, 16, 8, 24, 1):
+        for variant in ("flip", "spread", "pack", "scroll", "same"):
+            for rep in range(1 if quick else 6):
+                S = rng.choice([2, 3, 5])                 # words per destination row
+                P = (32 * S) // bpp
+                rows = 3
+                mid = 64 + 4 * S * 12
+                dlen = mid + 4 * S * 14 + 64
+                lines = ["R bin%d_%s_%d" % (bpp, variant, k), "B %d %d %d" % (dlen, 16, rng.randrange(1 << 30))]
+                k += 1
+                for _ in range(6 if quick else 10):
+                    h = rng.choice([1, 2, 2, 3, 3])
+                    x = rng.randint(0, min(5, P - 1))
+                    w = rng.choice([0, 1, 2, P - x, max(0, P - x - 1), rng.randint(0, P - x)])
+                    w = max(0, min(w, P - x))
+                    if variant == "flip":
+                        c = (bpp, bpp, -S, S, mid, mid, x, 0, x, 0, w, h)
+                    elif variant == "spread":            # source lines far apart, packed together at the origin
+                        c = (bpp, bpp, S * rng.choice([3, 4]), S, mid, mid, x, 0, x, 0, w, h)
+                    elif variant == "pack":              # source lines adjacent, spread apart from the origin on
+                        c = (bpp, bpp, S, S * rng.choice([3, 4]), mid, mid, x, 0, x, 0, w, h)
+                    elif variant == "same":              # a copy onto itself (equal strides): nothing may change
+                        c = (bpp, bpp, S, S, mid, mid, x, 0, x, 0, w, h)
+                    else:                                # scroll by more than the height
+                        c = (bpp, bpp, S, S, mid, mid, x, rng.choice([3, 4, 5]), rng.randint(0, min(5, P - w)), 0, w, h)
+                    sb, db, ss, ds, so, do, sx, sy, dx, dy, w, h = c
+                    dsp = [(8 * (do + (dy + j) * ds * 4) + dx * db, 8 * (do + (dy + j) * ds * 4) + (dx + w) * db) for j in range(h)]
+                    ssp = [(8 * (so + (sy + j) * ss * 4) + sx * sb, 8 * (so + (sy + j) * ss * 4) + (sx + w) * sb) for j in range(h)]
+                    apart = lambda a, b: a[1] <= b[0] or b[1] <= a[0] or a[0] == a[1] or b[0] == b[1]
+                    assert all(0 <= a and b <= 8 * dlen for a, b in dsp + ssp), c
+                    assert all((j == i and ssp[j] == dsp[i]) or apart(ssp[j], dsp[i]) for j in range(h) for i in range(h)), c
+                    assert all(apart(dsp[i], dsp[j]) for i in range(h) for j in range(i)), c
+                    lines.append("blti " + " ".join(map(str, c)))
+                execs.append(lines)
+    return execs
+
+
 def all_format_scenarios(rng, quick):
     """fill_boxes / fill_rectangles against compositing on EVERY destination format pixman can create (the whole list
        of pixman.h: sRGB, 10-bit, float, 24-bit, 4/2/1-bit channels, palette formats), for the operators that may take the
@@ -1276,6 +1320,9 @@ def run(prop, args):
     # 2. scripts
     if prop == "C19":
         execs = fill_scenarios(rng, quick)
+        ib = inplace_blt_scenarios(rng, quick)
+        chk.extra["inplace_blt_executions"] = len(ib)
+        execs += ib
         fmts = DIRECT + ["r8g8b8", "a4", "a2r10g10b10", "a1r5g5b5", "a4r4g4b4", "r3g3b2", "x14r6g6b6", "rgba_float"]
         if not quick:
             fmts = list(ALL_FORMATS)
@@ -1379,7 +1426,8 @@ def run(prop, args):
                              "bytes changed) of a fill_boxes call that changed the destination")
         chk.assumptions += ["little-endian host (bit layout of 1/4/24-bpp pixels as pixman defines it for !WORDS_BIGENDIAN)",
                             "rows of a fill/blt rectangle do not overlap and lie inside the buffer; source and destination "
-                            "of a blt are different buffers",
+                            "of a blt are different buffers, or (in-place blt) every source row is its own destination row or "
+                            "touches no destination row",
                             "the reference for fill_boxes is pixman_image_composite32 of the same library build with a "
                             "solid source (the statement is that equivalence); unused (x) bits of a pixel are not compared",
                             "TLC/SANY and the CommunityModules Json/IOUtils readers are trusted"]
